@@ -76,11 +76,13 @@ class Explorer:
         self.assumptions.append(c)
 
     def _feasible(self, extra):
+        """Over-approximate feasibility (sound for exploration: an infeasible path explored anyway only yields
+        vacuous obligations).  Bool-valued uninterpreted functions of whole arrays (any_nan(A), check_diagonal(A), ...)
+        are abstracted to opaque atoms keyed by term identity, which keeps these queries in plain arithmetic."""
         s = z3.Solver()
         s.set("timeout", self.feas_timeout_ms)
-        s.add(*self.pc)
-        s.add(*self.assumptions)
-        s.add(extra)
+        fs = _abstract_array_predicates(list(self.pc) + list(self.assumptions) + [extra])
+        s.add(*fs)
         self.n_feas_checks += 1
         r = s.check()
         if r == z3.unknown:
@@ -151,6 +153,35 @@ class Explorer:
         finally:
             Explorer.current = prev
         return paths
+
+
+_ABS_CACHE = {}
+
+
+def _abstract_array_predicates(formulas):
+    subs = {}
+
+    def visit(t, seen):
+        if t.get_id() in seen:
+            return
+        seen.add(t.get_id())
+        if z3.is_app(t) and t.decl().kind() == z3.Z3_OP_UNINTERPRETED and t.num_args() > 0 and z3.is_bool(t) \
+                and any(a.sort().kind() == z3.Z3_ARRAY_SORT for a in t.children()):
+            subs[t.get_id()] = (t, z3.Bool(f"abs!{t.decl().name()}!{t.get_id()}"))
+            return
+        if z3.is_quantifier(t):
+            visit(t.body(), seen)
+            return
+        for ch in t.children():
+            visit(ch, seen)
+
+    seen = set()
+    for f in formulas:
+        visit(f, seen)
+    if not subs:
+        return formulas
+    pairs = list(subs.values())
+    return [z3.substitute(f, *pairs) for f in formulas]
 
 
 def _ex() -> Explorer:
